@@ -29,9 +29,9 @@ import (
 	"k8s.io/apimachinery/pkg/runtime/schema"
 	"k8s.io/client-go/kubernetes/fake"
 	k8sscheme "k8s.io/client-go/kubernetes/scheme"
-	"k8s.io/client-go/rest"
 	corev1 "k8s.io/client-go/kubernetes/typed/core/v1"
 	v1lister "k8s.io/client-go/listers/core/v1"
+	"k8s.io/client-go/rest"
 )
 
 // Recorder collects the journal of the current operation.
@@ -257,9 +257,9 @@ type SimASG struct {
 
 type AwsSim struct {
 	autoscalingiface.AutoScalingAPI
-	rec  *Recorder
-	asgs map[string]*SimASG
-	ec2  *Ec2Sim
+	rec    *Recorder
+	asgs   map[string]*SimASG
+	ec2    *Ec2Sim
 	linger bool // terminated instances stay listed (Terminating) until the harness lets them go
 }
 
@@ -268,9 +268,9 @@ type Ec2Sim struct {
 	rec        *Recorder
 	aws        *AwsSim
 	nextID     int
-	fleetSplit int           // into how many Instances entries CreateFleet splits the ids
-	fleetMode  string        // "ok", "none+err", "none", "some+err"
-	notReady   map[int]bool  // readiness ticks (0-based) at which some instance is not running
+	fleetSplit int          // into how many Instances entries CreateFleet splits the ids
+	fleetMode  string       // "ok", "none+err", "none", "some+err"
+	notReady   map[int]bool // readiness ticks (0-based) at which some instance is not running
 	tick       int
 	pending    map[string]bool // fleet instances acquired and not yet attached
 	launch     time.Time
